@@ -67,10 +67,26 @@ def main():
           ("expr", ("n", "y"), "inc", (("n", "x"),)), ("val", ("a",), 5.0)]
     run_history(rac, k1)
     rac.case(tuple(k1), sample=[G.opstr(o) for o in k1])
-    rac.section("random", "random histories of length 6..14 over all locations and templates (seeded)",
-                "200 histories quick / 3000 thorough", exhaustive=False)
-    for _ in range(200 if quick else 3000):
-        ops = G.random_history(rac.rng, rac.rng.randint(6, 14))
+    calpha = list(G.CONTAINER_OPS) + [("expr", ("n", "x"), "dbl", (("a",),)), ("expr", ("l", 0), "rsub", (("b",),)),
+                                      ("val", ("a",), 5.0), ("val", ("n", "y"), 5.0), ("iop", ("n", "y"), "-=", 3.0)]
+    LC = 3 if quick else 4
+    rac.section("containers", f"every history of length <= {LC} over {len(calpha)} operations around containers read AS A WHOLE: definitions "
+                "f.tot(d['n']) / f.tot(d['l']) (a function reached through a reference), assignments to members nobody reads one by one, whole "
+                "containers replaced by value (only while no member is expression-defined, as the statement requires), members defined by "
+                "expressions; values compared after every step; non-trivial = a whole-container definition is present",
+                f"length<={LC}, |alphabet|={len(calpha)}")
+    for n in range(1, LC + 1):
+        for ops in itertools.product(calpha, repeat=n):
+            if n > 2 and rac.out_of_time(0.7):
+                rac.sections["containers"]["exhaustive"] = False
+                rac.exhaustive = False
+                break
+            if run_history(rac, ops):
+                rac.case(ops, nontrivial=any(o[0] == "expr" and o[2] in G.CTEMPLATES for o in ops), sample=[G.opstr(o) for o in ops])
+    rac.section("random", "random histories of length 6..14 over all locations and templates, half of them with whole-container reads and "
+                "container replacements (seeded)", "200 histories quick / 3000 thorough", exhaustive=False)
+    for k in range(200 if quick else 3000):
+        ops = G.random_history(rac.rng, rac.rng.randint(6, 14), containers=bool(k % 2))
         run_history(rac, ops)
         rac.case(tuple(ops), nontrivial=any(o[0] == "expr" for o in ops), sample=[G.opstr(o) for o in ops])
         if rac.out_of_time(0.85):
